@@ -34,6 +34,11 @@ _SAN_RE = [
     (re.compile(r"WARNING: ThreadSanitizer: ([a-z A-Z-]+?) \("), "tsan"),
     (re.compile(r"runtime error: (.*)"), "ubsan"),
 ]
+_VG_RE = re.compile(r"==\d+== (Invalid read|Invalid write|Conditional jump or move depends on uninitialised value|"
+                    r"Use of uninitialised value|Syscall param [^\n]*uninitialised|Invalid free|Mismatched free|"
+                    r"Source and destination overlap|Argument '[a-z]+' of function [a-z_]+ has a fishy|Jump to the invalid address|"
+                    r"Process terminating with default action of signal \d+)")
+_VG_FRAME_RE = re.compile(r"==\d+==\s+(?:at|by) 0x[0-9A-F]+: ([^\n]*?) \(")
 _ASSERT_RE = re.compile(r"Assertion `(.*)' failed")
 _GLIBCXX_RE = re.compile(r"Assertion '(.*)' failed")
 _FRAME_RE = re.compile(r"#\d+ (?:0x[0-9a-f]+ in )?([A-Za-z_][^\s(]*)")  # ASan "#0 0x.. in f" and TSan "#0 f file:line"
@@ -70,6 +75,17 @@ def classify_crash(stderr_text, rc, timed_out):
             frames = _unodb_frames(stderr_text[m.start():])
             return {"key": "%s/%s@%s" % (name, kind, "<-".join(frames) or "?"),
                     "what": stderr_text[m.start():m.start() + 1500]}
+    m = _VG_RE.search(stderr_text)
+    if m and "Process terminating" not in m.group(1):
+        kind = re.sub(r"[^A-Za-z]+", "-", m.group(1).strip()).strip("-").lower()[:60]
+        frames = []
+        for fm in _VG_FRAME_RE.finditer(stderr_text[m.start():]):
+            fn = re.sub(r"<.*", "", fm.group(1)).split("(")[0]
+            if "unodb" in fn and fn not in frames:
+                frames.append(fn)
+            if len(frames) >= 2:
+                break
+        return {"key": "memcheck/%s@%s" % (kind, "<-".join(frames) or "?"), "what": stderr_text[m.start():m.start() + 1800]}
     m = _ASSERT_RE.search(stderr_text) or _GLIBCXX_RE.search(stderr_text)
     if m:
         line = stderr_text[max(0, m.start() - 300):m.end()]
@@ -102,6 +118,9 @@ def _run_one(binary, env, args, timeout, workdir, idx):
     r.args = list(args)
     e = dict(os.environ)
     e.update(env)
+    wrap = e.pop("VERIF_WRAP", None)
+    if wrap:
+        full = wrap.split() + full
     t0 = time.time()
     with open(errp, "wb") as ef:
         p = subprocess.Popen(full, stdout=ef, stderr=subprocess.STDOUT, env=e, cwd=workdir,
